@@ -9,6 +9,7 @@ import (
 
 	"github.com/ovn-org/libovsdb/cache"
 	"github.com/ovn-org/libovsdb/model"
+	"github.com/ovn-org/libovsdb/ovsdb"
 )
 
 func jsonUnmarshal(b []byte, v any) error { return json.Unmarshal(b, v) }
@@ -61,6 +62,52 @@ func checkRowCacheIndexes(e *Env, rc *cache.RowCache, t *Table, clientIdx []mode
 	for u, m := range models {
 		r, _ := RowFromModel(t, m)
 		scan[u] = r
+	}
+	// read-only queries with several conditions over indexed columns go first: they
+	// must neither miss rows nor disturb the indexes compared below
+	if t.Name == "Root" && mon["num"] && mon["flag"] && mon["name"] {
+		n := 0
+		for _, u := range SortedKeys(scan) {
+			if n >= 3 {
+				break
+			}
+			n++
+			r := scan[u]
+			if len(r["num"].Set) != 1 || len(r["flag"].Set) != 1 || len(r["name"].Set) != 1 {
+				continue
+			}
+			num, flag, name := int(r["num"].Set[0].I), r["flag"].Set[0].B, r["name"].Set[0].S
+			for _, q := range []struct {
+				conds []ovsdb.Condition
+				match func(x Row) bool
+			}{
+				{[]ovsdb.Condition{ovsdb.NewCondition("num", ovsdb.ConditionEqual, num), ovsdb.NewCondition("flag", ovsdb.ConditionEqual, !flag)},
+					func(x Row) bool { return len(x["num"].Set) == 1 && int(x["num"].Set[0].I) == num && len(x["flag"].Set) == 1 && x["flag"].Set[0].B == !flag }},
+				{[]ovsdb.Condition{ovsdb.NewCondition("num", ovsdb.ConditionEqual, num), ovsdb.NewCondition("name", ovsdb.ConditionEqual, name)},
+					func(x Row) bool { return len(x["num"].Set) == 1 && int(x["num"].Set[0].I) == num && len(x["name"].Set) == 1 && x["name"].Set[0].S == name }},
+			} {
+				got, err := rc.RowsByCondition(q.conds)
+				if err != nil {
+					continue
+				}
+				var want, have []string
+				for v, x := range scan {
+					if q.match(x) {
+						want = append(want, v)
+					}
+				}
+				for v := range got {
+					have = append(have, v)
+				}
+				sort.Strings(want)
+				sort.Strings(have)
+				e.Probes["c05_condition_query"]++
+				if strings.Join(want, ",") != strings.Join(have, ",") {
+					e.ViolateK("C05.condition-lookup", "two-conditions", "%s: RowsByCondition(%v) on table %s returned %v, a scan gives %v", who, q.conds, t.Name, have, want)
+					return
+				}
+			}
+		}
 	}
 	var specs [][]model.ColumnKey
 	schemaN := len(t.Indexes)
